@@ -57,9 +57,9 @@ namespace igris
         igris::unbounded_array<char> _history_space = {};
         igris::unbounded_array<char> _buffer_space = {};
 
-        uint8_t _headhist = 0; // Индекс в массиве, куда будет перезаписываться
+        unsigned int _headhist = 0; // Индекс в массиве, куда будет перезаписываться
                                // новая строка истории.
-        uint8_t _curhist = 0; // Индекс выбора строки истории (0-пустая,
+        unsigned int _curhist = 0; // Индекс выбора строки истории (0-пустая,
                               // 1-последняя, 2-предпоследняя и т.д.)
 
     public:
